@@ -16,6 +16,8 @@ Partial / as-is:
 * `C35_seek_fwd_partial`  without the continuation an ascending seek is either the specification
                      or empty, and empty only for targets that are not stored keys.
 * `C35_fails_asis_seek_block_gap`  negation on the witness of the open finding.
+* `C35_corrupt_block_never_served` (headline, also bears on C14): through `loadBlock` and the block
+                     cache, a block whose checksum does not match is never returned, first read or retry.
 NOT PROVED (named, covered by the correspondence run only): `C35_seek_rev` (descending seek =
 entries `≤ target`, last first) and "reopen = decode ∘ encode of the table image" (the byte
 layout of blocks/index/checksums is not modelled).
@@ -67,9 +69,9 @@ theorem C35_point (c : SstCfg) (hc : c.GoodButSeek) (hash : Bytes → Nat) (bloc
     · rw [h, ht]
     · exact absurd rfl (h3 e he)
   have hcfg : c.bloomSameProjection = true ∧ c.searchVsOp = .lt := by
-    obtain ⟨so, nb, ts, bf, br, sv, bp⟩ := c
+    obtain ⟨so, nb, ts, bf, br, sv, bp, vc⟩ := c
     simp only [SstCfg.GoodButSeek, SstCfg.good, SstCfg.mk.injEq] at hc
-    exact ⟨hc.2.2.2.2.2.2, hc.2.2.2.2.2.1⟩
+    exact ⟨hc.2.2.2.2.2.2.1, hc.2.2.2.2.2.1⟩
   simp only [buildTable] at hbloom
   unfold search
   simp only [buildTable, hcfg.1, if_true, hseek, hcfg.2]
@@ -130,5 +132,61 @@ theorem C35_fails_asis_seek_block_gap (c : SstCfg) (hc : AsIsSeek c) :
   unfold AsIsSeek at hc
   subst hc
   decide
+
+/-! ### a block that fails its checksum is never served (shared with C14: SST data blocks) -/
+
+/-- every cached block is the verified decoding of what is on disk -/
+def CacheClean (disk : Nat → Block × Bool) (cache : List (Nat × Block)) : Prop :=
+  ∀ i b, cache.lookup i = some b → disk i = (b, true)
+
+theorem loadBlock_clean (c : SstCfg) (hc : c.verifyBeforeCache = true) (disk : Nat → Block × Bool)
+    (cache : List (Nat × Block)) (h : CacheClean disk cache) (idx : Nat) :
+    CacheClean disk (loadBlock c disk cache idx).2 ∧
+    ((loadBlock c disk cache idx).1 = .err ∨ ((loadBlock c disk cache idx).1 = .ok (disk idx).1 ∧ (disk idx).2 = true)) := by
+  unfold loadBlock
+  cases hl : cache.lookup idx with
+  | some b =>
+    have := h idx b hl
+    simp [this, h]
+  | none =>
+    simp only [hc, if_true]
+    cases hd : (disk idx).2 with
+    | false => simp [h]
+    | true =>
+      simp only [if_true]
+      refine ⟨?_, by simp⟩
+      intro i b hi
+      simp only [List.lookup_cons] at hi
+      by_cases e : i = idx
+      · subst e
+        simp at hi
+        rw [← hi]
+        exact Prod.ext rfl hd
+      · have : (i == idx) = false := by simpa using e
+        simp only [this] at hi
+        exact h i b hi
+
+/-- With the checksum verified before the block is cached: in any sequence of block loads (any
+indexes, any repetition, starting from a cache of verified blocks) every load either fails or
+returns the verified on-disk block — a block whose checksum does not match is never returned,
+neither on the first read nor on a retry. -/
+theorem C35_corrupt_block_never_served (c : SstCfg) (hc : c.verifyBeforeCache = true)
+    (disk : Nat → Block × Bool) (cache : List (Nat × Block)) (h : CacheClean disk cache) (idxs : List Nat) :
+    ∀ p ∈ (idxs.zip (loadSeq c disk cache idxs)), p.2 = .err ∨ (p.2 = .ok (disk p.1).1 ∧ (disk p.1).2 = true) := by
+  induction idxs generalizing cache with
+  | nil => simp [loadSeq]
+  | cons i is ih =>
+    obtain ⟨h1, h2⟩ := loadBlock_clean c hc disk cache h i
+    intro p hp
+    simp only [loadSeq, List.zip_cons_cons, List.mem_cons] at hp
+    rcases hp with hp | hp
+    · subst hp; exact h2
+    · exact ih _ h1 p hp
+
+/-- cache-then-verify (the shape a refactoring can produce): the first load of a corrupted block
+fails, the retry is served the corrupted block from the cache. -/
+theorem C35_fails_cache_before_verify (c : SstCfg) (hc : c.verifyBeforeCache = false) :
+    loadSeq c (fun _ => ([([1], [66])], false)) [] [0, 0] = [.err, .ok [([1], [66])]] := by
+  simp [loadSeq, loadBlock, hc, List.lookup]
 
 end NoKV.Props.C35
